@@ -196,8 +196,9 @@ class FuncTr:
                 return f"(sumZ {self.expr(e.args[0])})"
             if n == "str" and len(e.args) == 1 and not kw:
                 return f"(fmt_d {self.expr(e.args[0])})"
-            if n == "ceil" and self.qmode and len(e.args) == 1:
-                return f"(inject_Z (Qceiling {self.expr(e.args[0])}))"
+            if n == "ceil" and len(e.args) == 1 and not kw:
+                num, den = self.rat(e.args[0])
+                return f"(cdiv {num} {den})"
             if n == "sorted" and len(e.args) == 1 and set(kw) <= {"key", "reverse"} and "key" in kw:
                 rev = kw.get("reverse")
                 if rev is not None and not (isinstance(rev, ast.Constant) and rev.value in (True, False)):
@@ -218,6 +219,28 @@ class FuncTr:
         if isinstance(f, ast.Attribute) and not kw and f.attr in self.known:
             return "(" + " ".join([ident(f.attr), self.expr(f.value)] + [self.expr(a) for a in e.args]) + ")"
         raise Unsupported("call " + ast.unparse(e))
+
+    def rat(self, e):
+        """exact rational value of an arithmetic expression as (numerator, denominator) Gallina Z terms;
+        Python floats in the source are read as the decimal fractions they are written as"""
+        from fractions import Fraction
+        if isinstance(e, ast.Constant) and isinstance(e.value, (int, float)) and not isinstance(e.value, bool):
+            fr = Fraction(str(e.value))
+            return (str(fr.numerator) if fr.numerator >= 0 else f"({fr.numerator})", str(fr.denominator))
+        if isinstance(e, ast.BinOp):
+            (an, ad), (bn, bd) = self.rat(e.left), self.rat(e.right)
+            if isinstance(e.op, ast.Div):
+                return (f"({an} * {bd})", f"({ad} * {bn})")
+            if isinstance(e.op, ast.Mult):
+                return (f"({an} * {bn})", f"({ad} * {bd})")
+            if isinstance(e.op, ast.Sub):
+                return (f"({an} * {bd} - {bn} * {ad})", f"({ad} * {bd})")
+            if isinstance(e.op, ast.Add):
+                return (f"({an} * {bd} + {bn} * {ad})", f"({ad} * {bd})")
+            raise Unsupported("rational op " + type(e.op).__name__)
+        if isinstance(e, (ast.Name, ast.Subscript, ast.Attribute)):
+            return (self.expr(e), "1")
+        raise Unsupported("rational expression " + ast.unparse(e))
 
     def e_JoinedStr(self, e):
         parts = []
